@@ -10,11 +10,29 @@
 //! in phase 2 the first EXECUTE frame of every key arrives at a node that is a replica of the tablet covering the key's
 //! Murmur3 token (harness reference implementation) and - on a sharded node - on a connection whose server-side shard is
 //! the shard that tablet replica names (every node had a live connection on every shard).
+//!
+//! Optional words (C12 audit round 5: tablet tables through the rest of the Session glue; defaults = the behaviour above):
+//!  * `dcs=<1|2>`   two datacenters (node i is in dc (i % 2) + 1); a tablet's replicas are drawn from all nodes.
+//!  * `api=<u|i|b>` phase 2 runs `execute_unpaged` / `execute_iter` (the pager's own `RoutingInfo` literals, pager.rs:949-966
+//!                  and 1017-1049) / `Session::batch` of two prepared INSERTs, the second one bound to ANOTHER key (the BATCH
+//!                  frame is recognised and judged by its first statement). Phase 1 always teaches through `execute_unpaged`:
+//!                  the driver learns tablets only from EXECUTE / QUERY responses, never from BATCH responses.
+//!  * `pages=2`     (api=i) phase 2 reads `SELECT .. WHERE pk = ?`: page 1 carries a paging state; the first request for
+//!                  page 2 of a key (it must arrive at the coordinator of page 1, or at a replica of the tablet) is answered
+//!                  "is bootstrapping", so the page is asked for again on the next target of the plan built from the pages-2+
+//!                  literal: ANOTHER permitted replica of the tablet while there is one, on the shard the tablet names.
+//!  * `pref=<dc>`   the session prefers a datacenter (`SessionBuilder::prefer_datacenter` = `node_location_preference`, no
+//!                  failover); `spref=<dc>` `svia=<p|l>`: the statement (and the batch) carries its own execution profile /
+//!                  load-balancing policy preferring `spref` - that one must be consulted, not the session's.
+//!                  Oracle with a preference: the first frame arrives at a replica of the tablet IN that datacenter, on its
+//!                  tablet shard, when the tablet has one there; otherwise it must stay inside that datacenter.
 use super::common::*;
 use crate::mockcluster::*;
 use crate::mocknode::{Parsed, RESP_RESULT, ShardMode, body_void};
 use crate::rng::Rng;
 use crate::{Ctx, Tier};
+use futures::StreamExt;
+use std::sync::atomic::{AtomicBool, Ordering};
 use std::sync::{Arc, Mutex};
 use std::time::Duration;
 
@@ -32,6 +50,44 @@ pub fn generate(rng: &mut Rng, tier: Tier, emit: &mut dyn FnMut(String)) {
             1 + rng.below(n.min(3)),
             rng.below(1 << 32),
             if tier == Tier::Quick { 16 } else { 24 }
+        ));
+    }
+    // tablet tables through the pager, Session::batch, session- and statement-level datacenter preference
+    let n_glue = if tier == Tier::Quick { 16 } else { 160 };
+    for i in 0..n_glue {
+        let dcs = if i % 4 == 3 { 1 } else { 2 };
+        let n = if dcs == 2 { 3 + rng.below(3) } else { 2 + rng.below(3) };
+        let sh = *rng.pick(&[0u64, 2, 3, 4]);
+        let api = ["i", "b", "i", "u"][i % 4];
+        let pages = if api == "i" && (i / 4) % 2 == 0 { 2 } else { 1 };
+        let (pref, spref) = if dcs == 1 {
+            (0, 0)
+        } else {
+            match (i / 4) % 4 {
+                0 => (1 + rng.below(2), 0),
+                1 => (0, 1 + rng.below(2)),
+                2 => {
+                    let sp = 1 + rng.below(2);
+                    (3 - sp, sp)
+                }
+                _ => (0, 0),
+            }
+        };
+        emit(format!(
+            "e2e tablet n={} sh={} mix={} tab={} rf={} seed={} keys={} dcs={} api={} pages={} pref={} spref={} svia={}",
+            n,
+            sh,
+            if sh >= 2 && rng.chance(1, 3) { 1 } else { 0 },
+            1 + rng.below(6),
+            1 + rng.below(n.min(3)),
+            rng.below(1 << 32),
+            if tier == Tier::Quick { 12 } else { 20 },
+            dcs,
+            api,
+            pages,
+            pref,
+            spref,
+            if rng.bool() { "p" } else { "l" }
         ));
     }
 }
@@ -58,8 +114,29 @@ pub fn run(words: &[&str], ctx: &mut Ctx) -> String {
     if !(1..=8).contains(&n) || sh > 16 || !(1..=64).contains(&tab) || rf == 0 || rf > n || nkeys > 500 {
         return "bad-case".into();
     }
+    let (Some(dcs), Some(pages), Some(session_pref), Some(spref)) = (p.num_or("dcs", 1), p.num_or("pages", 1), p.num_or("pref", 0), p.num_or("spref", 0)) else {
+        return "bad-case".into();
+    };
+    let (api_iter, api_batch) = match p.str("api") {
+        None | Some("u") => (false, false),
+        Some("i") => (true, false),
+        Some("b") => (false, true),
+        _ => return "bad-case".into(),
+    };
+    let svia_policy = match p.str("svia") {
+        None | Some("p") => false,
+        Some("l") => true,
+        _ => return "bad-case".into(),
+    };
+    if !(1..=2).contains(&dcs) || dcs > n || !(1..=2).contains(&pages) || (pages == 2 && !api_iter) || session_pref > dcs || spref > dcs {
+        return "bad-case".into();
+    }
+    // the preference the oracle judges by: the statement's own wins over the session's
+    let pref = if spref > 0 { spref } else { session_pref };
     let n = n as usize;
-    let shape = Shape { nodes: n, dcs: 1, racks: 1, shards: sh as u16, msb: 12, vnodes: 2, strat: Strat::Nts(vec![rf as usize]), seed };
+    let dcs = dcs as usize;
+    let strat = if dcs == 1 { Strat::Nts(vec![rf as usize]) } else { Strat::Nts(vec![1; dcs]) };
+    let shape = Shape { nodes: n, dcs, racks: 1, shards: sh as u16, msb: 12, vnodes: 2, strat, seed };
     let mut topo = shape.topology();
     topo.tablets_ext = true;
     topo.keyspaces[0].initial_tablets = Some(tab as i32);
@@ -98,9 +175,21 @@ pub fn run(words: &[&str], ctx: &mut Ctx) -> String {
     let keys = super::route::gen_keys(seed, nkeys as usize);
     let taught: Arc<Mutex<Vec<bool>>> = Arc::new(Mutex::new(vec![false; tablets.len()]));
     let (taught_h, tablets_h, nodes_h) = (Arc::clone(&taught), tablets.clone(), nodes.clone());
+    let phase2 = Arc::new(AtomicBool::new(false));
+    let phase2_h = Arc::clone(&phase2);
+    let mut page2_seen: std::collections::HashSet<Vec<u8>> = std::collections::HashSet::new();
     let handler = with_std_prepare(move |r: &Req| {
         let Parsed::Execute { params, .. } = &r.parsed else { return vec![act_void()] };
         let Some(Some(pk)) = params.values.first() else { return vec![act_void()] };
+        if pages == 2 && phase2_h.load(Ordering::SeqCst) {
+            // the paged SELECT of phase 2 (every tablet it may be judged for was taught in phase 1)
+            let row = vec![Some(pk.clone()), c_int(0)];
+            return match &params.paging_state {
+                None => vec![Act::Respond(RESP_RESULT, rows_body(&row_specs(), !params.skip_metadata, Some(b"page-2"), &[row]))],
+                Some(_) if page2_seen.insert(pk.clone()) => vec![act_error(0x1002, "bootstrapping", &[])],
+                Some(_) => vec![Act::Respond(RESP_RESULT, rows_body(&row_specs(), !params.skip_metadata, None, &[row]))],
+            };
+        }
         let ti = tablet_of(&tablets_h, token_of(pk));
         let t = &tablets_h[ti];
         let at_replica = t.replicas.iter().any(|(nd, s)| *nd == r.node && (r.shard.is_none() || r.shard == Some(*s)));
@@ -115,14 +204,45 @@ pub fn run(words: &[&str], ctx: &mut Ctx) -> String {
     let rt = runtime(1);
     rt.block_on(async {
         let cluster = MockCluster::start(topo, handler).await;
-        let session = match connect(&cluster, |b| b).await {
+        let session = match connect(&cluster, |b| if session_pref > 0 { b.prefer_datacenter(Shape::dc_name(session_pref as usize - 1)) } else { b }).await {
             Ok(s) => s,
             Err(skip) => return skip,
         };
-        let ps = match session.prepare(INSERT).await {
+        let mut ps = match session.prepare(INSERT).await {
             Ok(ps) => ps,
             Err(_) => return "e2e-skip prepare-failed".to_owned(),
         };
+        let mut sel = if pages == 2 {
+            match session.prepare(SELECT).await {
+                Ok(ps) => Some(ps),
+                Err(_) => return "e2e-skip prepare-failed".to_owned(),
+            }
+        } else {
+            None
+        };
+        let mut batch = scylla::statement::batch::Batch::new(scylla::statement::batch::BatchType::Unlogged);
+        if spref > 0 {
+            use scylla::client::execution_profile::ExecutionProfile;
+            use scylla::policies::load_balancing::DefaultPolicy;
+            let lb = DefaultPolicy::builder().prefer_datacenter(Shape::dc_name(spref as usize - 1)).build();
+            if svia_policy {
+                ps.set_load_balancing_policy(Some(lb.clone()));
+                if let Some(s) = sel.as_mut() {
+                    s.set_load_balancing_policy(Some(lb.clone()));
+                }
+                batch.set_load_balancing_policy(Some(lb));
+            } else {
+                let handle = ExecutionProfile::builder().load_balancing_policy(lb).build().into_handle();
+                ps.set_execution_profile_handle(Some(handle.clone()));
+                if let Some(s) = sel.as_mut() {
+                    s.set_execution_profile_handle(Some(handle.clone()));
+                }
+                batch.set_execution_profile_handle(Some(handle));
+            }
+        }
+        batch.append_statement(ps.clone());
+        batch.append_statement(ps.clone());
+        let ps = ps;
         // phase 1
         for (i, k) in keys.iter().enumerate() {
             let _ = (i, session.execute_unpaged(&ps, (k.clone(), i as i32)).await);
@@ -144,18 +264,46 @@ pub fn run(words: &[&str], ctx: &mut Ctx) -> String {
             tokio::time::sleep(Duration::from_millis(5)).await;
         }
         // phase 2
+        phase2.store(true, Ordering::SeqCst);
         let start = cluster.mark("phase2");
         for (i, k) in keys.iter().enumerate() {
-            let _ = session.execute_unpaged(&ps, (k.clone(), i as i32)).await;
+            if api_batch {
+                let other = keys[(i + 1) % keys.len()].clone();
+                let _ = session.batch(&batch, ((k.clone(), i as i32), (other, -1i32))).await;
+            } else if let Some(sel) = &sel {
+                if let Ok(pager) = session.execute_iter(sel.clone(), (k.clone(),)).await {
+                    if let Ok(mut stream) = pager.rows_stream::<(Vec<u8>, i32)>() {
+                        while let Some(item) = stream.next().await {
+                            if item.is_err() {
+                                break;
+                            }
+                        }
+                    }
+                }
+            } else if api_iter {
+                let _ = session.execute_iter(ps.clone(), (k.clone(), i as i32)).await;
+            } else {
+                let _ = session.execute_unpaged(&ps, (k.clone(), i as i32)).await;
+            }
         }
         let frames: Vec<Req> = cluster.user_frames().into_iter().filter(|f| f.seq > start).collect();
-        let (mut good, mut judged) = (0, 0);
+        let (mut good, mut judged, mut page2) = (0, 0, 0);
+        let pref_dc = (pref > 0).then(|| Shape::dc_name(pref as usize - 1));
         for (i, k) in keys.iter().enumerate() {
-            let mine: Vec<&Req> = frames
-                .iter()
-                .filter(|f| matches!(&f.parsed, Parsed::Execute { params, .. } if params.values.first() == Some(&Some(k.clone()))))
-                .collect();
-            let Some(f) = mine.first().copied() else { continue };
+            let carries_key = |f: &Req, later_page: bool| match &f.parsed {
+                Parsed::Execute { params, .. } if !api_batch => params.values.first() == Some(&Some(k.clone())) && params.paging_state.is_some() == later_page,
+                Parsed::Batch { statements, .. } if api_batch && !later_page => {
+                    matches!(statements.first(), Some(crate::mocknode::BatchStmt::Prepared(_, vals)) if vals.first() == Some(&Some(k.clone())))
+                }
+                _ => false,
+            };
+            let mine: Vec<&Req> = frames.iter().filter(|f| carries_key(f, false)).collect();
+            let Some(f) = mine.first().copied() else {
+                if api_batch || api_iter {
+                    ctx.fail(format!("e2e tablet: no request frame for key #{} arrived in phase 2", i));
+                }
+                continue;
+            };
             let tok = token_of(k);
             let ti = tablet_of(&tablets, tok);
             if !taught_now[ti] {
@@ -163,22 +311,94 @@ pub fn run(words: &[&str], ctx: &mut Ctx) -> String {
             }
             judged += 1;
             let t = &tablets[ti];
-            match t.replicas.iter().find(|(nd, _)| *nd == f.node) {
-                None => ctx.fail(format!(
-                    "e2e tablet: key #{} (token {}) lies in the known tablet ({}, {}] with replicas {:?} but was first sent to node {}",
-                    i, tok, t.first_exclusive, t.last, t.replicas, f.node
-                )),
+            // the replicas of the tablet the load-balancing configuration permits
+            let want: Vec<(usize, u16)> = match &pref_dc {
+                None => t.replicas.clone(),
+                Some(dc) => t.replicas.iter().copied().filter(|(nd, _)| nodes[*nd].dc == *dc).collect(),
+            };
+            let via = if api_batch { "BATCH" } else if api_iter { "execute_iter" } else { "execute" };
+            if want.is_empty() {
+                // a preferred datacenter without a replica of the tablet, failover not permitted: stay there
+                let dc = pref_dc.as_ref().unwrap();
+                if nodes[f.node].dc != *dc {
+                    ctx.fail(format!(
+                        "e2e tablet: key #{} ({}) went to node {} outside the preferred datacenter {} ({} preference; the tablet has no replica there, failover is not permitted)",
+                        i, via, f.node, dc, if spref > 0 { "the statement's own" } else { "the session's" }
+                    ));
+                } else {
+                    good += 1;
+                }
+                continue;
+            }
+            match want.iter().find(|(nd, _)| *nd == f.node) {
+                None => {
+                    ctx.fail(format!(
+                        "e2e tablet: key #{} (token {}, {}) lies in the known tablet ({}, {}] with replicas {:?}{} but was first sent to node {}",
+                        i,
+                        tok,
+                        via,
+                        t.first_exclusive,
+                        t.last,
+                        t.replicas,
+                        match &pref_dc {
+                            Some(dc) => format!(", of which {:?} are in the preferred datacenter {} ({} preference)", want, dc, if spref > 0 { "the statement's own" } else { "the session's" }),
+                            None => String::new(),
+                        },
+                        f.node
+                    ));
+                    continue;
+                }
                 Some((_, s)) => {
                     if f.shard.is_some() && f.shard != Some(*s) {
                         ctx.fail(format!(
-                            "e2e tablet: key #{} (token {}) lies in the known tablet ({}, {}] whose replica on node {} is shard {}, but arrived on a connection of shard {:?}",
-                            i, tok, t.first_exclusive, t.last, f.node, s, f.shard
+                            "e2e tablet: key #{} (token {}, {}) lies in the known tablet ({}, {}] whose replica on node {} is shard {}, but arrived on a connection of shard {:?}",
+                            i, tok, via, t.first_exclusive, t.last, f.node, s, f.shard
                         ));
-                    } else {
-                        good += 1;
+                        continue;
                     }
+                    good += 1;
                 }
             }
+            if pages == 2 {
+                let later: Vec<&Req> = frames.iter().filter(|f| carries_key(f, true)).collect();
+                let (Some(f1), Some(f2)) = (later.first().copied(), later.get(1).copied()) else {
+                    ctx.fail(format!("e2e tablet: key #{}: {} request(s) for page 2 arrived, 2 expected (the first was answered \"is bootstrapping\")", i, later.len()));
+                    continue;
+                };
+                let same = f1.node == f.node && f1.shard == f.shard;
+                let owner = want.iter().any(|(nd, s)| *nd == f1.node && (f1.shard.is_none() || f1.shard == Some(*s)));
+                if !same && !owner {
+                    ctx.fail(format!(
+                        "e2e tablet: key #{} (token {}): page 2 was first asked of node {} shard {:?} - neither the coordinator of page 1 (node {} shard {:?}) nor a permitted replica of the tablet {:?}",
+                        i, tok, f1.node, f1.shard, f.node, f.shard, want
+                    ));
+                    continue;
+                }
+                let others: Vec<(usize, u16)> = want.iter().copied().filter(|(nd, _)| *nd != f.node).collect();
+                if !others.is_empty() {
+                    match others.iter().find(|(nd, _)| *nd == f2.node) {
+                        None => {
+                            ctx.fail(format!(
+                                "e2e tablet: key #{} (token {}): page 2 was retried on node {} which is not among the remaining permitted replicas {:?} of the tablet ({}, {}] (page 1 answered by node {})",
+                                i, tok, f2.node, others, t.first_exclusive, t.last, f.node
+                            ));
+                            continue;
+                        }
+                        Some((_, s)) if f2.shard.is_some() && f2.shard != Some(*s) => {
+                            ctx.fail(format!(
+                                "e2e tablet: key #{} (token {}): the retried request for page 2 arrived at node {} on a connection of shard {:?}, the tablet names shard {}",
+                                i, tok, f2.node, f2.shard, s
+                            ));
+                            continue;
+                        }
+                        _ => {}
+                    }
+                }
+                page2 += 1;
+            }
+        }
+        if pages == 2 {
+            return format!("tablet keys={} judged={} good={} page2={}", keys.len(), judged, good, page2);
         }
         format!("tablet keys={} judged={} good={}", keys.len(), judged, good)
     })
